@@ -81,6 +81,10 @@ def check(case, rec: Rec) -> None:
 REQUIRED_LABELS = {"multi": 0.2, "h34": 0.1, "nozid_in_sec": 0.2, "lookalike": 0.2, "full_prefix": 0.05, "gap": 0.1}
 
 
+def sample_view(case):
+    return P.render(case["page"], case["today"])[0]
+
+
 def parts(tier):
     from ..engine import load_findings
 
